@@ -13,7 +13,9 @@
 // absence of crashes and index validity only.
 #include <array>
 #include <cmath>
+#include <algorithm>
 #include <cstring>
+#include <map>
 #include <sstream>
 
 #include "engine/runner.h"
@@ -129,16 +131,48 @@ static bool boundariesDisjoint(const Ring& a, const Ring& b) {
   return true;
 }
 
+// contact between two strictly simple rings: 0 = boundaries disjoint, 1 = they share exactly one point
+// (returned in p), 2 = anything else (proper crossing, shared segment, several contact points).
+// Two simple closed curves with a single common point cannot cross there (a transversal crossing forces a
+// second intersection), so 1 means "touching": separable by moving one vertex by an arbitrarily small amount.
+static int contact(const Ring& A, const Ring& B, P& p) {
+  bool have = false;
+  for (int i = 0; i < A.n; ++i)
+    for (int j = 0; j < B.n; ++j) {
+      P a = A.v[i], b = A.v[(i + 1) % A.n], c = B.v[j], d = B.v[(j + 1) % B.n];
+      i64 o1 = orient(a, b, c), o2 = orient(a, b, d), o3 = orient(c, d, a), o4 = orient(c, d, b);
+      if (((o1 > 0 && o2 < 0) || (o1 < 0 && o2 > 0)) && ((o3 > 0 && o4 < 0) || (o3 < 0 && o4 > 0))) return 2;
+      P q[4];
+      int nq = 0;
+      if (o1 == 0 && inBox(a, b, c)) q[nq++] = c;
+      if (o2 == 0 && inBox(a, b, d)) q[nq++] = d;
+      if (o3 == 0 && inBox(c, d, a)) q[nq++] = a;
+      if (o4 == 0 && inBox(c, d, b)) q[nq++] = b;
+      for (int k = 0; k < nq; ++k) {
+        if (!have) {
+          p = q[k];
+          have = true;
+        } else if (q[k] != p)
+          return 2;
+      }
+    }
+  return have ? 1 : 0;
+}
+
 struct SetInfo {
   bool valid = false;
+  bool touching = false;  // exactly one pair of contours touches in exactly one point (valid only for epsilon > 0)
   int V = 0, h = 0, o = 0;
   i64 area2 = 0;
   bool hasDup = false, hasCollinear = false, convexOnly = false;
 };
 
 // VALID := every contour strictly simple (consecutive duplicates and straight
-// vertices allowed), boundaries pairwise disjoint (no touching), and every
-// contour at even nesting depth counter-clockwise, at odd depth clockwise.
+// vertices allowed), boundaries pairwise disjoint - except that at most ONE pair
+// of contours may touch in exactly one point (flag `touching`; such a set is
+// epsilon-valid for every epsilon > 0 and is judged only in configurations
+// with epsilon != 0) - and every contour at even nesting depth
+// counter-clockwise, at odd depth clockwise.
 static SetInfo analyseSet(const PSet& s) {
   SetInfo si;
   const int k = (int)s.size();
@@ -154,13 +188,28 @@ static SetInfo analyseSet(const PSet& s) {
     si.convexOnly &= ri[i].strictlyConvex;
     si.area2 += ri[i].area2;
   }
+  int ti = -1, tj = -1;
+  P tp = {0, 0};
   for (int i = 0; i < k; ++i)
-    for (int j = i + 1; j < k; ++j)
-      if (!boundariesDisjoint(ri[i].red, ri[j].red)) return si;
+    for (int j = i + 1; j < k; ++j) {
+      P p;
+      int ct = contact(ri[i].red, ri[j].red, p);
+      if (ct == 0) continue;
+      if (ct == 2 || ti >= 0) return si;
+      ti = i;
+      tj = j;
+      tp = p;
+      si.touching = true;
+    }
   for (int i = 0; i < k; ++i) {
     int depth = 0;
-    for (int j = 0; j < k; ++j)
-      if (j != i && strictlyInside(ri[j].red, ri[i].red.v[0])) ++depth;
+    for (int j = 0; j < k; ++j) {
+      if (j == i) continue;
+      // a vertex of contour i that does not lie on contour j
+      P probe = ri[i].red.v[0];
+      if (((i == ti && j == tj) || (i == tj && j == ti)) && probe == tp) probe = ri[i].red.v[1];
+      if (strictlyInside(ri[j].red, probe)) ++depth;
+    }
     bool ccw = ri[i].area2 > 0;
     if ((depth % 2 == 0) != ccw) return si;
     if (ccw)
@@ -376,6 +425,22 @@ static const TCfg TCFG[4] = {
     {1.01, false, "scale=1;eps=1.01;convex=0"},  // epsilon larger than the lattice step: stresses the epsilon walks
 };
 
+static void violCount(Ctx& c, const std::string& why, double eps, const SetInfo& si) {
+  c.count(eps == 0 ? "viol_eps_zero" : eps < 0 ? "viol_eps_default" : "viol_eps_positive");
+  const char* k = "viol_other";
+  if (why.rfind("index", 0) == 0) k = "viol_index";
+  else if (why.rfind("triangle count", 0) == 0) k = "viol_count";
+  else if (why.find("is clockwise") != std::string::npos) k = "viol_clockwise";
+  else if (why.find("repeats") != std::string::npos) k = "viol_repeated_index";
+  else if (why.rfind("triangle areas", 0) == 0) k = "viol_area";
+  else if (why.rfind("input edge", 0) == 0) k = "viol_input_edge";
+  else if (why.rfind("edge", 0) == 0) k = "viol_unpaired_edge";
+  else if (why.rfind("exception", 0) == 0) k = "viol_exception";
+  c.count(k);
+  if (si.valid && si.touching) c.count("viol_in_touching");
+  if (si.valid) c.count(si.h >= 2 ? "viol_in_2holes" : si.o >= 2 && si.h == 1 ? "viol_in_hole_island" : "viol_in_other_valid");
+}
+
 static bool callLib(const PolygonsIdx& polys, double eps, bool convex, std::vector<ivec3>& out, std::string& err) {
   try {
     out = TriangulateIdx(polys, eps, convex);
@@ -394,6 +459,12 @@ static void runSet(Ctx& c, const PSet& s, const SetInfo& si, int nTerm = 4, int 
   flatten(s, f);
   std::vector<ivec3> t;
   std::string err;
+  bool any = false;
+  auto V = [&](const std::string& key, const std::string& why, double eps, bool withTris) {
+    c.viol(key, key, withTris ? why + trisStr(t) : why);
+    violCount(c, why, eps, si);
+    any = true;
+  };
   if (!si.valid) {
     PolygonsIdx in = buildIdx(s, 1.0);
     for (int k = 0; k < nTerm; ++k) {
@@ -402,13 +473,14 @@ static void runSet(Ctx& c, const PSet& s, const SetInfo& si, int nTerm = 4, int 
       c.describe(key);
       c.count("lib_calls");
       if (!callLib(in, TCFG[k].eps, TCFG[k].convex, t, err)) {
-        c.viol(key, key, err);
+        V(key, err, TCFG[k].eps, false);
         continue;
       }
       std::string why = judge(t, f, si, false);
-      if (!why.empty()) c.viol(key, key, why + trisStr(t));
+      if (!why.empty()) V(key, why, TCFG[k].eps, true);
       if (k == 1 && !pairsUp(t, f)) c.count("info_invalid_input_not_paired");
     }
+    if (any) c.count("inputs_with_viol");
     return;
   }
   PolygonsIdx in[4];
@@ -416,21 +488,24 @@ static void runSet(Ctx& c, const PSet& s, const SetInfo& si, int nTerm = 4, int 
   for (int k = 0; k < 9; ++k) {
     const Cfg& g = JCFG[k];
     // a zero-length edge is "duplicate within epsilon" only for epsilon > 0
-    const bool full = !(g.eps == 0 && si.hasDup);
+    const bool full = !(g.eps == 0 && (si.hasDup || si.touching));
     for (int convex = 1; convex >= 0; --convex) {
       std::string key = ps + g.txt + (convex ? ";convex=1" : ";convex=0");
       c.describe(key);
       c.count("lib_calls");
       if (!callLib(in[g.scaleSlot], g.eps, convex, t, err)) {
-        c.viol(key, key, err);
+        V(key, err, g.eps, false);
         continue;
       }
       std::string why = judge(t, f, si, full);
       if (full) c.count("judged_calls");
-      if (!why.empty()) c.viol(key, key, why + trisStr(t));
+      if (!why.empty()) V(key, why, g.eps, true);
       if (!full) {
         std::string w2 = judge(t, f, si, true);
-        c.count(w2.empty() ? "info_dup_eps0_ok" : "info_dup_eps0_bad");
+        if (si.touching)
+          c.count(w2.empty() ? "info_touch_eps0_ok" : "info_touch_eps0_bad");
+        else
+          c.count(w2.empty() ? "info_dup_eps0_ok" : "info_dup_eps0_bad");
       }
       if (k == 0 && convex == 1) {
         // Triangulate(Polygons) numbers the vertices itself: same triangles up to idx = 2k+1
@@ -449,9 +524,9 @@ static void runSet(Ctx& c, const PSet& s, const SetInfo& si, int nTerm = 4, int 
           for (size_t i = 0; same && i < t.size(); ++i)
             for (int j = 0; j < 3; ++j)
               if (idxOf(t2[i][j]) != t[i][j]) same = false;
-          if (!same) c.viol(key2, key2, "Triangulate(Polygons) and TriangulateIdx disagree" + trisStr(t));
+          if (!same) V(key2, "Triangulate(Polygons) and TriangulateIdx disagree", g.eps, true);
         } catch (const std::exception& e) {
-          c.viol(key2, key2, std::string("exception: ") + e.what());
+          V(key2, std::string("exception: ") + e.what(), g.eps, false);
         }
       }
     }
@@ -462,12 +537,13 @@ static void runSet(Ctx& c, const PSet& s, const SetInfo& si, int nTerm = 4, int 
     c.describe(key);
     c.count("lib_calls");
     if (!callLib(in[0], TCFG[3].eps, false, t, err))
-      c.viol(key, key, err);
+      V(key, err, TCFG[3].eps, false);
     else {
       std::string why = judge(t, f, si, false);
-      if (!why.empty()) c.viol(key, key, why + trisStr(t));
+      if (!why.empty()) V(key, why, TCFG[3].eps, true);
     }
   }
+  if (any) c.count("inputs_with_viol");
 }
 
 // ------------------------------------------------------------------ enumerators
@@ -528,7 +604,13 @@ static bool sameTri(const HalfedgeTriangulation& a, const HalfedgeTriangulation&
 
 int main(int argc, char** argv) {
   Runner R("C10", argc, argv);
-  const bool thorough = R.a.thorough();
+  // size level: 2 = thorough, 1 = quick, 0 = small.  With --asan-subset (the seq-asan run) every tier drops
+  // one level: ASan quick = small bound, ASan thorough = the quick bound.
+  bool asanSubset = false;
+  for (int i = 1; i < argc; ++i)
+    if (std::string(argv[i]) == "--asan-subset") asanSubset = true;
+  const int level = (R.a.thorough() ? 2 : 1) - (asanSubset ? 1 : 0);
+  const bool thorough = level >= 2;
   auto want = [&](const std::string& name) {
     if (!R.a.onlyPhase.empty() && R.a.onlyPhase != name) return false;
     if (!R.a.onlyCase.empty() && R.a.onlyCase.substr(0, R.a.onlyCase.find(':')) != name) return false;
@@ -537,7 +619,14 @@ int main(int argc, char** argv) {
   std::vector<const char*> CN = {"inputs",          "valid",       "valid_collinear",
                                  "valid_dup",       "valid_convex", "invalid",
                                  "lib_calls",       "judged_calls", "info_dup_eps0_ok",
-                                 "info_dup_eps0_bad", "info_invalid_input_not_paired"};
+                                 "info_dup_eps0_bad", "info_invalid_input_not_paired",
+                                 "viol_eps_zero",   "viol_eps_default", "viol_eps_positive",
+                                 "viol_index",      "viol_count",   "viol_clockwise",
+                                 "viol_repeated_index", "viol_area", "viol_input_edge",
+                                 "viol_unpaired_edge", "viol_exception", "viol_other",
+                                 "viol_in_2holes",  "viol_in_hole_island", "viol_in_other_valid",
+                                 "inputs_with_viol", "valid_touching", "info_touch_eps0_ok",
+                                 "info_touch_eps0_bad", "viol_in_touching"};
   auto account = [&](Ctx& c, const PSet& s, const SetInfo& si) {
     c.count("inputs");
     if (si.valid) {
@@ -545,9 +634,10 @@ int main(int argc, char** argv) {
       if (si.hasCollinear) c.count("valid_collinear");
       if (si.hasDup) c.count("valid_dup");
       if (si.convexOnly) c.count("valid_convex");
+      if (si.touching) c.count("valid_touching");
       uint64_t h = setHash(s, true);
       c.distinct(h);
-      if (!si.convexOnly) c.nontrivial(h);
+      if (!si.convexOnly || s.size() > 1) c.nontrivial(h);
     } else
       c.count("invalid");
   };
@@ -558,9 +648,10 @@ int main(int argc, char** argv) {
     if (p.x == 0 || p.x == 12 || p.y == 0 || p.y == 12) bound12.push_back(p);
   const std::vector<P> half9 = latticePts(4, 8, 2);
   const std::vector<P> quart9 = latticePts(5, 7, 1);
+  const std::vector<P> sub9 = latticePts(0, 8, 4);
 
   // ---------- phase seq: ALL vertex sequences of length 3..L over the 16 lattice points
-  const int L = thorough ? 7 : 6;
+  const int L = 5 + level;
   std::vector<uint64_t> seqOff(L + 2, 0);
   {
     uint64_t acc = 0;
@@ -608,79 +699,165 @@ int main(int argc, char** argv) {
               c.viol("harness:classifier-mismatch:" + setStr(s), setStr(s), "analyseSet and analyseRing disagree");
           }
           account(c, s, si);
-          // length-7 invalid sequences: two termination configurations (eps=-1 with and without fast path ... see notes)
+          // invalid sequences run under all four termination configurations (length 7: the first three)
           runSet(c, s, si, s[0].n >= 7 ? 3 : 4);
           if (si.valid && idx % 100003 == 0) c.sample(setStr(s));
         },
-        CN, thorough ? 26 : 23);
+        CN, level >= 2 ? 26 : 23);
   }
 
-  // ---------- phase holes: outer contour x inner configuration (1 hole, 2 holes, hole+island)
-  // outer: simple CCW ring over the 12 boundary lattice points (quick) or all 16 (thorough), <= Lo vertices
-  // holes: simple CW rings of 3..4 vertices over the half lattice {1,1.5,2}^2
-  // islands: CCW triangles over the quarter lattice {1.25,1.5,1.75}^2
-  std::vector<Ring> outers, holes1;
+  // ---------- phases hole1 / holes2: contours with holes (and islands inside holes)
+  // holes: simple CW rings of 3..4 vertices over the half lattice {1,1.5,2}^2 (796 of them)
+  // islands: CCW triangles over the quarter lattice {1.25,1.5,1.75}^2 (228)
+  // hole1 : EVERY (outer, hole, order) combination; outer = simple CCW ring without duplicates over the 12
+  //         boundary lattice points with 3 (level 0) / <= 4 (level 1) vertices, over all 16 points with <= 5
+  //         vertices and both contour orders at level 2.  A hole that is not strictly inside gives an
+  //         overlapping input: termination + index validity only.
+  // holes2: outer x {two disjoint holes | hole + island inside it}, only the combinations that are valid
+  //         (every hole strictly inside the outer contour); the index space is the concatenation of the
+  //         per-outer lists of admissible inner configurations.
   struct Inner {
     int a, b;   // indices into holes1 (b = -1: none)
     int isl;    // index into islands or -1
+    int order;  // 0: outer contour first; 1: outer contour last (and island before its hole)
   };
-  std::vector<Inner> inners;
-  std::vector<Ring> islands;
+  std::vector<Ring> outers1, outers2, holes1, islands;
+  std::vector<Inner> inners2;
+  std::vector<std::vector<int>> innerLists;  // distinct admissible-inner lists
+  std::vector<int> outerList;                // outers2[i] uses innerLists[outerList[i]]
+  std::vector<uint64_t> outerOff;            // prefix sums over outers2
+  bool holeListsBuilt = false;
   auto buildHoleLists = [&]() {
-    if (!outers.empty()) return;
-    outers = enumRings(thorough ? full16 : bound12, 3, 5, +1, true);
+    if (holeListsBuilt) return;
+    holeListsBuilt = true;
     holes1 = enumRings(half9, 3, 4, -1, false);
     islands = enumRings(quart9, 3, 3, +1, false);
-    for (int a = 0; a < (int)holes1.size(); ++a) inners.push_back({a, -1, -1});
-    // two holes: both triangles (quick) / up to 4 vertices (thorough), ordered pairs, strictly disjoint and not nested
-    for (int a = 0; a < (int)holes1.size(); ++a)
-      for (int b = 0; b < (int)holes1.size(); ++b) {
-        if (a == b) continue;
-        if (!thorough && (holes1[a].n > 3 || holes1[b].n > 3)) continue;
-        if (!boundariesDisjoint(holes1[a], holes1[b])) continue;
-        if (strictlyInside(holes1[a], holes1[b].v[0]) || strictlyInside(holes1[b], holes1[a].v[0])) continue;
-        inners.push_back({a, b, -1});
+    outers1 = level >= 2   ? enumRings(full16, 3, 5, +1, false)
+              : level == 1 ? enumRings(bound12, 3, 4, +1, false)
+                           : enumRings(bound12, 3, 3, +1, false);
+    // holes2 outer contours: <= 4 vertices over the 12 boundary points; level 1 keeps those that strictly
+    // contain the whole hole lattice [1,2]^2, level 0 only the four rotations of the full square
+    std::vector<Ring> cand2;
+    for (const Ring& o : enumRings(bound12, 3, 4, +1, false)) {
+      if (level <= 1) {
+        bool all = true;
+        for (P p : half9) {
+          for (int i = 0; i < o.n; ++i)
+            if (orient(o.v[i], o.v[(i + 1) % o.n], p) == 0 && inBox(o.v[i], o.v[(i + 1) % o.n], p)) all = false;
+          if (all && !strictlyInside(o, p)) all = false;
+        }
+        if (!all) continue;
       }
-    // hole + island strictly inside it
-    for (int a = 0; a < (int)holes1.size(); ++a)
+      if (level == 0) {
+        bool corners = true;
+        for (int i = 0; i < o.n; ++i)
+          if ((o.v[i].x != 0 && o.v[i].x != 12) || (o.v[i].y != 0 && o.v[i].y != 12)) corners = false;
+        if (!corners) continue;
+      }
+      cand2.push_back(o);
+    }
+    const int nh = (int)holes1.size();
+    // two holes: strictly disjoint (thorough: or touching in one point) and not nested.
+    // quick: both triangles, unordered; thorough: all ordered pairs
+    for (int a = 0; a < nh; ++a)
+      for (int b = 0; b < nh; ++b) {
+        if (a == b) continue;
+        if (!thorough && (holes1[a].n > 3 || holes1[b].n > 3 || a > b)) continue;
+        P tp;
+        int ct = contact(holes1[a], holes1[b], tp);
+        if (ct == 2 || (ct == 1 && !thorough)) continue;  // thorough: holes touching in one point as well
+        P pa = holes1[a].v[0] == tp && ct ? holes1[a].v[1] : holes1[a].v[0];
+        P pb = holes1[b].v[0] == tp && ct ? holes1[b].v[1] : holes1[b].v[0];
+        if (strictlyInside(holes1[a], pb) || strictlyInside(holes1[b], pa)) continue;
+        inners2.push_back({a, b, -1, 0});
+        if (thorough) inners2.push_back({a, b, -1, 1});
+      }
+    // hole + island strictly inside it.  quick: every 6th island (one rotation of every other triangle)
+    for (int a = 0; a < nh; ++a)
       for (int i = 0; i < (int)islands.size(); ++i) {
-        if (!thorough && i % 3 != 0) continue;  // quick: one rotation of each island triangle
+        if (!thorough && i % 6 != 0) continue;
         if (!boundariesDisjoint(holes1[a], islands[i])) continue;
         if (!strictlyInside(holes1[a], islands[i].v[0])) continue;
-        inners.push_back({a, -1, i});
+        inners2.push_back({a, -1, i, 1});
+        if (thorough) inners2.push_back({a, -1, i, 0});
       }
+    std::map<std::vector<bool>, int> seen;
+    uint64_t acc = 0;
+    for (const Ring& o : cand2) {
+      std::vector<bool> in(nh);
+      for (int h = 0; h < nh; ++h)
+        in[h] = boundariesDisjoint(o, holes1[h]) && strictlyInside(o, holes1[h].v[0]);
+      auto it = seen.find(in);
+      int li;
+      if (it != seen.end())
+        li = it->second;
+      else {
+        std::vector<int> lst;
+        for (int k = 0; k < (int)inners2.size(); ++k)
+          if (in[inners2[k].a] && (inners2[k].b < 0 || in[inners2[k].b])) lst.push_back(k);
+        li = (int)innerLists.size();
+        innerLists.push_back(std::move(lst));
+        seen[in] = li;
+      }
+      if (innerLists[li].empty()) continue;
+      outers2.push_back(o);
+      outerList.push_back(li);
+      outerOff.push_back(acc);
+      acc += innerLists[li].size();
+    }
+    outerOff.push_back(acc);
+    if (getenv("C10_SIZES"))
+      fprintf(stderr, "outers1=%zu holes1=%zu islands=%zu inners2=%zu outers2=%zu lists=%zu holes2 cases=%llu\n",
+              outers1.size(), holes1.size(), islands.size(), inners2.size(), outers2.size(), innerLists.size(),
+              (unsigned long long)acc);
   };
-  auto genHoles = [&](uint64_t idx) {
-    // idx = (outer, inner, order)
-    const uint64_t ni = inners.size();
-    int order = (int)(idx % 2);
-    uint64_t r = idx / 2;
-    const Inner& in = inners[r % ni];
-    const Ring& o = outers[r / ni];
+  const int orders1 = thorough ? 2 : 1;
+  auto genHole1 = [&](uint64_t idx) {
+    int order = (int)(idx % orders1);
+    uint64_t r = idx / orders1;
+    const Ring& h = holes1[r % holes1.size()];
+    const Ring& o = outers1[r / holes1.size()];
+    return order == 0 ? PSet{o, h} : PSet{h, o};
+  };
+  auto genHoles2 = [&](uint64_t idx) {
+    size_t oi = std::upper_bound(outerOff.begin(), outerOff.end(), idx) - outerOff.begin() - 1;
+    const Inner& in = inners2[innerLists[outerList[oi]][idx - outerOff[oi]]];
+    const Ring& o = outers2[oi];
     PSet s;
-    if (order == 0) s.push_back(o);
+    if (in.order == 0) s.push_back(o);
+    if (in.isl >= 0 && in.order == 1) s.push_back(islands[in.isl]);
     s.push_back(holes1[in.a]);
     if (in.b >= 0) s.push_back(holes1[in.b]);
-    if (in.isl >= 0) s.push_back(islands[in.isl]);
-    if (order == 1) {
-      if (in.isl >= 0) std::swap(s[0], s[1]);  // island first, then its hole, then the outer contour
-      s.push_back(o);
-    }
+    if (in.isl >= 0 && in.order == 0) s.push_back(islands[in.isl]);
+    if (in.order == 1) s.push_back(o);
     return s;
   };
-  if (want("holes")) {
+  if (want("hole1")) {
     buildHoleLists();
     R.phase(
-        "holes", (uint64_t)outers.size() * inners.size() * 2, 512,
+        "hole1", (uint64_t)outers1.size() * holes1.size() * orders1, 512,
         [&](uint64_t idx, Ctx& c) {
-          PSet s = genHoles(idx);
+          PSet s = genHole1(idx);
           SetInfo si = analyseSet(s);
           account(c, s, si);
-          // overlapping / escaping holes are inputs too: termination and index validity
           runSet(c, s, si, 2);
           if (si.valid && idx % 50021 == 0) c.sample(setStr(s));
         },
         CN, thorough ? 25 : 23);
+  }
+  if (want("holes2")) {
+    buildHoleLists();
+    R.phase(
+        "holes2", outerOff.back(), 512,
+        [&](uint64_t idx, Ctx& c) {
+          PSet s = genHoles2(idx);
+          SetInfo si = analyseSet(s);
+          if (!si.valid) c.viol("harness:holes2-not-valid:" + setStr(s), setStr(s), "constructed set is not valid");
+          account(c, s, si);
+          runSet(c, s, si, 2);
+          if (idx % 50021 == 0) c.sample(setStr(s));
+        },
+        CN, thorough ? 26 : 23);
   }
 
   // ---------- phase two: ordered pairs of CCW contours (o = 2 when disjoint)
@@ -693,7 +870,7 @@ int main(int argc, char** argv) {
   uint64_t twoN = 0;
   auto buildTwo = [&]() {
     if (!tri3.empty()) return;
-    tri3 = enumRings(full16, 3, 3, +1, false);
+    tri3 = enumRings(level == 0 ? sub9 : full16, 3, 3, +1, false);
     blocks.push_back({&tri3, &tri3, 0});
     twoN = (uint64_t)tri3.size() * tri3.size();
     if (thorough) {
@@ -723,7 +900,7 @@ int main(int argc, char** argv) {
           runSet(c, s, si, 2);
           if (si.valid && idx % 70001 == 0) c.sample(setStr(s));
         },
-        CN, thorough ? 24 : 22);
+        CN, thorough ? 25 : 22);
   }
 
   // ---------- phase tiny: contours with 0, 1 or 2 vertices, alone or next to a real polygon.
@@ -806,11 +983,12 @@ int main(int argc, char** argv) {
       }
     };
     const int M = thorough ? 3 : 1;
-    const uint64_t seqN6 = seqOff[6 + 1];  // sequences of length 3..6
+    const uint64_t seqN6 = seqOff[std::min(L, 6) + 1];  // sequences of length 3..6
     take(genSeq, seqN6, 150 * M, true);
     take(genSeq, seqN6, 70 * M, false);
-    take(genHoles, (uint64_t)outers.size() * inners.size() * 2, 110 * M, true);
-    take(genHoles, (uint64_t)outers.size() * inners.size() * 2, 20 * M, false);
+    take(genHole1, (uint64_t)outers1.size() * holes1.size() * orders1, 50 * M, true);
+    take(genHole1, (uint64_t)outers1.size() * holes1.size() * orders1, 20 * M, false);
+    take(genHoles2, outerOff.back(), 60 * M, true);
     take(genTwo, twoN, 35 * M, true);
     take(genTwo, twoN, 15 * M, false);
     const uint64_t K = pool.size();
